@@ -723,6 +723,15 @@ def programs(step: int = 3) -> Iterator[str]:
         ["y = {n}", "while c:", "    y = {n}", "else:", "    y", "y"],
         ["while c:", "    x", "    x = {n}", "else:", "    x = {n}", "x"],
         ["while True:", "    x", "    x = {n}"],
+        # a body whose last statement leaves, with a `continue` on a nested path: the loop does go round again
+        ["x = {n}", "while c:", "    x", "    if c:", "        x = {n}", "        continue", "    break", "x"],
+        ["x = {n}", "for i in it:", "    x", "    if c:", "        x = {n}", "        continue", "    return", "x"],
+        ["while c:", "    if c:", "        x", "    if c:", "        x = {n}", "        continue", "    return", "x"],
+        ["x = {n}", "for i in it:", "    x", "    x = {n}", "    continue", "x"],
+        ["x = {n}", "while c:", "    x", "    try:", "        x = {n}", "        continue", "    finally:", "        y = {n}", "    break", "x"],
+        # a body whose tail always returns: nothing of that path reaches the code after the loop
+        ["x = {n}", "for i in it:", "    if c:", "        continue", "    x = {n}", "    return", "x"],
+        ["x = {n}", "while c:", "    if c:", "        continue", "    x = {n}", "    return", "else:", "    x", "x"],
     ):
         yield render(pinned)
     constructs = [b for b in _blocks(1, 3, counter, False) if len(b) > 1]
